@@ -111,6 +111,11 @@ def run(pid, tier, seed, res, only=None):
     bad = 0
     for pl in plans:
         recs = run_conc(pl["case"], pl["k"], pl["seeds"], pl.get("fail_only"))
+        if any(run_["broken"] or run_["status"] == "hang" for r in recs for run_ in r["runs"]):
+            # repeated once: only a failure that repeats is reported (an overloaded machine starves workers)
+            recs2 = run_conc(pl["case"], pl["k"], pl["seeds"], pl.get("fail_only"))
+            if all(r["runs"] for r in recs2) and not any(run_["broken"] or run_["status"] == "hang" for r in recs2 for run_ in r["runs"]):
+                recs = recs2
         for r in recs:
             r["_plan"] = pl
             # the declared configuration a call is judged against is that of the case as THIS call saw it
